@@ -1323,6 +1323,50 @@ example : (parse (ν := Int) {} [.lengthAttr "18446744073709551615", .start .spe
       .stop .binaryDataArray, .stop .spectrum]).toOption =
     some [⟨"a", 0, false, 0, 0, 0, [], [7], []⟩] := by decide
 
+/-- the model's reading of base64 (what base64 0.13 `decode` does; every line was observed on the
+crate and is re-checked against it by the correspondence run): padding optional or partial, stray
+bits / bad lengths / `=` in the wrong place / white space / foreign characters rejected -/
+example :
+    b64decode [81, 85, 74, 68] = some [65, 66, 67] ∧  -- 'QUJD'
+    b64decode [81, 85, 73, 61] = some [65, 66] ∧  -- 'QUI='
+    b64decode [81, 85, 73] = some [65, 66] ∧  -- 'QUI'
+    b64decode [81, 81, 61, 61] = some [65] ∧  -- 'QQ=='
+    b64decode [81, 81, 61] = some [65] ∧  -- 'QQ='
+    b64decode [81, 81] = some [65] ∧  -- 'QQ'
+    b64decode [81, 85, 74, 68, 82, 65] = some [65, 66, 67, 68] ∧  -- 'QUJDRA'
+    b64decode [81, 85, 74, 68, 82, 85, 89] = some [65, 66, 67, 69, 70] ∧  -- 'QUJDRUY'
+    b64decode [] = some [] ∧  -- ''
+    b64decode [81] = none ∧  -- 'Q'
+    b64decode [81, 85, 74, 68, 82] = none ∧  -- 'QUJDR'
+    b64decode [81, 85, 74] = none ∧  -- 'QUJ'
+    b64decode [81, 82, 61, 61] = none ∧  -- 'QR=='
+    b64decode [61] = none ∧  -- '='
+    b64decode [61, 61] = none ∧  -- '=='
+    b64decode [81, 85, 74, 68, 61] = none ∧  -- 'QUJD='
+    b64decode [81, 85, 74, 68, 61, 61] = none ∧  -- 'QUJD=='
+    b64decode [81, 61, 61, 61] = none ∧  -- 'Q==='
+    b64decode [81, 85, 61, 68] = none ∧  -- 'QU=D'
+    b64decode [32, 81, 85, 74, 68] = none ∧  -- ' QUJD'
+    b64decode [81, 85, 32, 74, 68] = none ∧  -- 'QU JD'
+    b64decode [81, 85, 74, 68, 10] = none ∧  -- 'QUJD\n'
+    b64decode [81, 85, 74, 42] = none :=  -- 'QUJ*'
+  by decide
+
+/-- **C16.unpadded_payload_decodes** — a payload that lost its `=` padding is still a payload: the
+unpadded text of the 4 bytes `01 00 00 00` (`AQAAAA==`, `AQAAAA=`, `AQAAAA`) decodes to the same
+value as the padded one (and a document carrying it is well-formed, so `faithful` applies), a text
+cut one character further (`AQAAA`) is an error value, one cut by two (`AQAA`) is a 3-byte payload
+with no complete word — never a crash. -/
+theorem unpadded_payload_decodes :
+    let inflate : List UInt8 → Option (List UInt8) := fun _ => none
+    Payload.ofText [65, 81, 65, 65, 65, 65, 61, 61] inflate = .data [1, 0, 0, 0] none ∧
+    Payload.ofText [65, 81, 65, 65, 65, 65, 61] inflate = .data [1, 0, 0, 0] none ∧
+    Payload.ofText [65, 81, 65, 65, 65, 65] inflate = .data [1, 0, 0, 0] none ∧
+    Payload.ofText [65, 81, 65, 65, 65] inflate = .badB64 ∧
+    Payload.ofText [65, 81, 65, 65] inflate = .data [1, 0, 0] none ∧
+    decode32 (ν := Int) [1, 0, 0] = [] ∧
+    Payload.ofText [] inflate = .empty := by decide
+
 /-- **C16.parse_total** — the model's `parse` is a total function: for EVERY event list (any events,
 any order, any nesting) it returns either a list of spectra or one of six error values
 (`malformed`, `float`, `int`, `base64`, `io`, `xml`), and an error is always attributable to one
